@@ -189,7 +189,17 @@ def run(ctx):
     ctx.exhaustive = True
 
     # ---- R
-    jobs = gen_jobs(ctx, rng)
+    execute(ctx, gen_jobs(ctx, rng))
+
+
+def replay(ctx, rec):
+    job = dict(rec["case"]["job"])
+    ch = rec["case"]["chunking"]
+    job["chunkings"] = [{k: ch[k] for k in ("z", "v", "sched", "nw")}]
+    execute(ctx, [job])
+
+
+def execute(ctx, jobs):
     res = core.run_jobs("zonal_dask_worker", jobs, nproc=16, timeout=7200)
     cases, back = [], []
     for job, r in zip(jobs, res):
